@@ -45,6 +45,8 @@ pub(crate) fn rem(
                     divisor_n_frac_digits,
                 )),
                 None => {
+                    #[cfg(all(fpdec_verif, feature = "std"))]
+                    fpdec_core::verif::emit(fpdec_core::verif::Event::Path("rem:stepwise"));
                     let mut rem = divident_coeff % divisor_coeff;
                     while rem != 0 && shift > 0 {
                         match rem.checked_mul(10) {
